@@ -1,8 +1,110 @@
-(* drv_http.ml -- model-side drivers of work package "http" (see docs/AGENT_GUIDE.md) *)
+(* drv_http.ml -- model-side drivers of work package "http" (C17); mirrors harness/src/drv_http.rs.
+   Drivers http_* run Model/Http.v (the repaired code), httpL_* run Legacy/HttpLegacy.v (the pinned code). *)
 open Model
 open Util
 
+let h = hex_of_bytes
+let b = bytes_of_hex
+let port s = n_of_int (int_of_string s)
+let pi n = string_of_int (int_of_n n)
+
+let drv_fhe args =
+  match args with
+  | [buf] -> (match find_header_end (b buf) with Some n -> "SOME " ^ pi n | None -> "NONE")
+  | _ -> "BADCASE"
+
+let drv_shp f args =
+  match args with
+  | [v; d] -> let (hst, p) = f (b v) (port d) in Printf.sprintf "OK %s %s" (h hst) (pi p)
+  | _ -> "BADCASE"
+
+let drv_dt f args =
+  match args with
+  | m :: t :: ls ->
+    (match f (b m) (b t) (List.map b ls) with
+     | HOk (((hst, p), path), c) -> Printf.sprintf "OK %s %s %s %d" (h hst) (pi p) (h path) (if c then 1 else 0)
+     | HErr -> "ERR")
+  | _ -> "BADCASE"
+
+let parsed_str (p : hparsed) =
+  let bu = Buffer.create 256 in
+  Buffer.add_string bu (Printf.sprintf "OK %s %s %s %s %s %d %s %d" (h p.hp_method) (h p.hp_version) (h p.hp_host)
+    (pi p.hp_port) (h p.hp_path) (if p.hp_connect then 1 else 0) (h p.hp_body) (List.length p.hp_headers));
+  List.iter (fun l -> Buffer.add_char bu ' '; Buffer.add_string bu (h l)) p.hp_headers;
+  Buffer.contents bu
+
+let drv_parse f args =
+  match args with
+  | [hd; body] -> (match f (b hd) (b body) with HOk p -> parsed_str p | HErr -> "ERR")
+  | _ -> "BADCASE"
+
+let drv_build f args =
+  match args with
+  | m :: v :: hst :: p :: path :: c :: body :: ls ->
+    let r = { hp_method = b m; hp_version = b v; hp_host = b hst; hp_port = port p; hp_path = b path;
+              hp_connect = (c = "1"); hp_headers = List.map b ls; hp_body = b body } in
+    "OK " ^ h (f r)
+  | _ -> "BADCASE"
+
+let rec take n l = if n <= 0 then [] else match l with [] -> [] | x :: r -> x :: take (n - 1) r
+let rec drop n l = if n <= 0 then l else match l with [] -> [] | _ :: r -> drop (n - 1) r
+
+let drv_fwd parse build args =
+  match args with
+  | [buf] ->
+    let buf = b buf in
+    (match find_header_end buf with
+     | None -> "INCOMPLETE"
+     | Some e ->
+       let e = int_of_n e in
+       (match parse (take e buf) (drop e buf) with
+        | HErr -> "ERR"
+        | HOk p ->
+          let out = if p.hp_connect then [] else build p in
+          Printf.sprintf "OK %s %s %d %s %s" (h p.hp_host) (pi p.hp_port) (if p.hp_connect then 1 else 0) (h out) (h p.hp_body)))
+  | _ -> "BADCASE"
+
+(* http_read <eof> <segment>... : the segments reach the loop as reads of at most http_read_chunk bytes *)
+let drv_read rd args =
+  match args with
+  | eof :: segs ->
+    let chunks = tcp_reads (List.map b segs) in
+    (match rd [] chunks (eof = "1") with
+     | RhOk (hd, rest, remaining) -> Printf.sprintf "OK %s %s" (h hd) (h (List.concat (rest :: remaining)))
+     | RhTooLarge | RhClosed -> "ERR"
+     | RhPending _ -> "PENDING")
+  | _ -> "BADCASE"
+
+(* http_e2e <open_ok> <resp> <segment>... *)
+let drv_e2e hd args =
+  match args with
+  | ok :: _resp :: segs ->
+    let ok = (ok = "1") in
+    let evs = hd (tcp_reads (List.map b segs)) false ok in
+    let opn = ref "NOOPEN" and reply = ref "NONE" and seen_open = ref false and ord = ref true in
+    List.iter (fun e -> match e with
+        | EvOpen (hst, p) -> opn := Printf.sprintf "OPEN %s %s" (h hst) (pi p); seen_open := true
+        | EvReply c -> reply := pi c; if not !seen_open then ord := false
+        | EvSend _ -> ()) evs;
+    let relayed = !seen_open && ok && (_resp <> "-") in
+    Printf.sprintf "%s %s %s %d %s" !opn !reply (if !ord then "ORD1" else "ORD0") (if relayed then 1 else 0) (h (sent_bytes evs))
+  | _ -> "BADCASE"
+
 let dispatch (drv : string) (args : string list) : string option =
-  ignore args;
   match drv with
+  | "http_fhe" -> Some (drv_fhe args)
+  | "http_shp" -> Some (drv_shp split_host_port args)
+  | "http_dt" -> Some (drv_dt determine_target args)
+  | "http_parse" -> Some (drv_parse parse_http_request args)
+  | "http_build" -> Some (drv_build build_forward_request args)
+  | "http_fwd" -> Some (drv_fwd parse_http_request build_forward_request args)
+  | "http_read" -> Some (drv_read read_header args)
+  | "http_e2e" -> Some (drv_e2e handle args)
+  | "httpL_shp" -> Some (drv_shp split_host_port_cur args)
+  | "httpL_dt" -> Some (drv_dt determine_target_cur args)
+  | "httpL_parse" -> Some (drv_parse parse_http_request_cur args)
+  | "httpL_build" -> Some (drv_build build_forward_request_cur args)
+  | "httpL_fwd" -> Some (drv_fwd parse_http_request_cur build_forward_request_cur args)
+  | "httpL_read" -> Some (drv_read read_header_cur args)
+  | "httpL_e2e" -> Some (drv_e2e handle_cur args)
   | _ -> None
